@@ -46,3 +46,11 @@ CASES += [
     {"name": "state hook that only restores the dictionary", "kind": "twin", "edits": [
         (DFN, "    def _set_splines(self):", "    def __setstate__(self, state):\n        self.__dict__.update(state)\n\n    def _set_splines(self):", 1)]},
 ]
+
+SAV = "quantarhei/core/saveable.py"
+CASES += [
+    {"name": "directory index re-read only by the first save of a session", "kind": "mutant", "rule": "C18-G", "edits": [
+        (SAV, "        except FileExistsError:\n            self.hashes = load_parcel(hfile)", "        except FileExistsError:\n            if not getattr(self, \"_index_loaded\", False):\n                self.hashes = load_parcel(hfile)\n                self._index_loaded = True", 1)]},
+    {"name": "directory index kept in a local table", "kind": "twin", "edits": [
+        (SAV, "        except FileExistsError:\n            self.hashes = load_parcel(hfile)", "        except FileExistsError:\n            self.hashes = load_parcel(os.path.join(dirname,\"_hashes_.qrp\"))", 1)]},
+]
